@@ -26,15 +26,19 @@ var rules = []*Rule{
 		return append(append(ruleR8(p), p.collectLoopAscends()...), p.ownBackingArray()...)
 	}},
 	{ID: "R10", Title: "DECODER-VALIDATION: nothing is returned before it is checked", Props: []string{"C14", "C07", "C05", "C11", "C09", "C01", "C17"}, Run: func(p *Prog) []Ob {
-		return append(append(append(ruleR10(p), p.wholeItems()...), p.eofOrigin()...), p.freshMessage()...)
+		return append(append(append(append(ruleR10(p), p.wholeItems()...), p.eofOrigin()...), p.freshMessage()...), p.wholeHeaderAndMappedAccess()...)
 	}},
 	{ID: "R11", Title: "COPY-LOOP: every record read is accounted for", Props: []string{"C01", "C02", "C03", "C05", "C07", "C08", "C11", "C12", "C17"}, Run: func(p *Prog) []Ob {
 		return append(append(append(ruleR11(p), p.deletedSizeVersion()...), p.publishLoopObligations()...), append(append(append(p.indexTimeSeed(), p.wholeIndexCompare()...), p.scanBeforeVerdict()...), append(append(p.checkAndRecoverVerdicts(), p.publishedPositionIsWritten()...), p.recoverWritesKnownVersion()...)...)...)
 	}},
 	{ID: "R12", Title: "EFFECT-CONFINEMENT: who can change a log file", Props: []string{"C19", "C20", "C07", "C11", "C13", "C08"}, Run: func(p *Prog) []Ob { return append(ruleR12(p), p.indexConfinement()...) }},
-	{ID: "R15", Title: "FLOCK-PAIRING", Props: []string{"C19", "C02"}, Run: func(p *Prog) []Ob { return append(ruleR15(p), p.openWrappersRelease()...) }},
+	{ID: "R15", Title: "FLOCK-PAIRING", Props: []string{"C19", "C02"}, Run: func(p *Prog) []Ob {
+		return append(append(ruleR15(p), p.openWrappersRelease()...), p.nothingBeforeTheLock()...)
+	}},
 	{ID: "R14", Title: "NOTIFY: publish-then-set, probe-under-token", Props: []string{"C18"}, Run: ruleR14},
-	{ID: "R13", Title: "SEGMENT-NAMES: what New prints, Find parses, and sorts", Props: []string{"C01", "C02", "C20", "C05", "C12"}, Run: func(p *Prog) []Ob { return append(ruleR13(p), p.findAdoptsAll()) }},
+	{ID: "R13", Title: "SEGMENT-NAMES: what New prints, Find parses, and sorts", Props: []string{"C01", "C02", "C20", "C05", "C12", "C19", "C06"}, Run: func(p *Prog) []Ob {
+		return append(append(ruleR13(p), p.findAdoptsAll()), p.everyFoundSegmentIsOpened()...)
+	}},
 	{ID: "R16", Title: "INDEX-OPTIONAL: an index file may always be missing", Props: []string{"C11", "C07", "C08", "C20"}, Run: func(p *Prog) []Ob {
 		return append(append(ruleR16(p), p.reindexThresholdObligation()), p.rebuildUnderIndexLock()...)
 	}},
@@ -48,7 +52,7 @@ var rules = []*Rule{
 	}},
 	{ID: "R5", Title: "INUSE: the unload refcount protocol", Props: []string{"C08", "C19"}, Run: ruleR5},
 	{ID: "R18", Title: "SNAPSHOT-REVALIDATION", Props: []string{"C08", "C12", "C03", "C15"}, Run: func(p *Prog) []Ob {
-		return append(append(append(ruleR18(p), p.deleteSerialised()...), p.staleReader()...), append(p.lostRaceIsNotAnAnswer(), p.nothingDeletedMeansNothingToDelete()...)...)
+		return append(append(append(ruleR18(p), p.deleteSerialised()...), p.staleReader()...), append(p.lostRaceIsNotAnAnswer(), append(p.nothingDeletedMeansNothingToDelete(), p.deleteAnswersNothingOnlyForNothing()...)...)...)
 	}},
 	{ID: "R20", Title: "READER-LIFETIME: destructive segment operations exclude readers", Props: []string{"C08", "C03", "C12", "C04", "C09", "C10", "C15", "C20"}, Run: func(p *Prog) []Ob {
 		return append(append(append(ruleR20(p), p.closeBeforeReplace()...), p.filesUnderALogLock()...), append(p.queriesKeepNoState(), p.queryStateIsLifecycleState()...)...)
@@ -67,7 +71,9 @@ var rules = []*Rule{
 	{ID: "R32", Title: "LAZY-LOG", Props: []string{"C14"}, Run: func(p *Prog) []Ob { return append(ruleR32(p), p.openIsLazy()...) }},
 	{ID: "R33", Title: "TIME-VERBATIM", Props: []string{"C01", "C10"}, Run: ruleR33},
 	{ID: "R34", Title: "SEGMENT-IDENTITY", Props: []string{"C01", "C12", "C20"}, Run: func(p *Prog) []Ob { return append(ruleR34(p), p.dirIsNotAPrefix()...) }},
-	{ID: "R35", Title: "LOOKUP-OUTCOMES", Props: []string{"C04", "C09", "C10", "C03", "C08"}, Run: func(p *Prog) []Ob { return append(ruleR35(p), p.queryDecisionBasis()...) }},
+	{ID: "R35", Title: "LOOKUP-OUTCOMES", Props: []string{"C04", "C09", "C10", "C03", "C08", "C14"}, Run: func(p *Prog) []Ob {
+		return append(append(ruleR35(p), p.queryDecisionBasis()...), p.unclassifiedFailureIsNotAnAnswer()...)
+	}},
 	{ID: "R36", Title: "BOUNDARY-HAND-OFF and INDEX-WRAPPERS", Props: []string{"C10", "C09", "C04", "C03", "C13", "C15"}, Run: func(p *Prog) []Ob {
 		return append(append(append(ruleR36(p), p.indexWrappers()...), p.statFresh()...), append(p.siblingOutcomes(), p.cursorSiblings()...)...)
 	}},
